@@ -21,7 +21,8 @@ class Reject(Exception):
 
 class Obligation:
     def __init__(self, name, fn, kind, cases, funcs, mods, stubs, assumes, samples, note, tier, skip, budget,
-                 cite):
+                 cite, tol=None):
+        self.tol = tol
         self.name, self.fn, self.kind = name, fn, kind
         self.cases = cases
         self.funcs, self.mods, self.stubs = funcs, mods, stubs
@@ -50,7 +51,7 @@ def _short(v):
 
 
 def ob(name, kind="H", cases=({},), funcs=(), mods=(), stubs=None, assumes=(), samples=(3, 12), note="",
-       tier="quick", skip=(), budget=None, cite=""):
+       tier="quick", skip=(), budget=None, cite="", tol=None):
     """Register an obligation.
     kind:  H  real function on symbols, all paths, z3   (proved / refuted)
            T  AST -> VC / table enumeration via z3          (proved / refuted)
@@ -65,7 +66,7 @@ def ob(name, kind="H", cases=({},), funcs=(), mods=(), stubs=None, assumes=(), s
     """
     def deco(fn):
         o = Obligation(name, fn, kind, cases, tuple(funcs), tuple(mods), stubs or {}, tuple(assumes), samples,
-                       note, tier, tuple(skip), budget, cite)
+                       note, tier, tuple(skip), budget, cite, tol)
         REGISTRY.setdefault(o.prop, []).append(o)
         return fn
     return deco
@@ -251,6 +252,8 @@ class Ctx:
     def real(self, name, lo=None, hi=None, pos=False, nonzero=False, sample=None):
         """Real input.  lo/hi are *closed* bounds of the precondition; pos => > 0.  `sample` = (lo, hi) range
         for random concrete draws (default derived from the bounds)."""
+        if not self.sym and name in self.inputs:
+            return self.inputs[name]        # same name => same input (contracts may re-declare to rebuild an object)
         if self.sym:
             v = z3.Real(name)
             self.inputs[name] = v
@@ -279,6 +282,8 @@ class Ctx:
         return x
 
     def int(self, name, lo=None, hi=None, sample=None):
+        if not self.sym and name in self.inputs:
+            return self.inputs[name]
         if self.sym:
             v = z3.Int(name)
             self.inputs[name] = v
